@@ -291,11 +291,13 @@ def run_structure(s):
             labels = list(a.labels)
             oblige(f"received[{i}]:trailing-dims-are-signature-axes-in-order", labels[len(labels) - k:] == core,
                    detail=f"{labels} vs core {core}")
-            if labels[len(labels) - k:] != core or any(d not in sizes for d in labels):
+            if labels[len(labels) - k:] != core:
                 continue
             for pos, d in enumerate(labels):
                 if d in sizes:
                     oblige(f"received[{i}]:size:{'core' if d in core else 'lead'}{pos}", zint(a.shape[pos]) == sizes[d])
+                else:
+                    oblige(f"received[{i}]:size:broadcast-axis{pos}", zint(a.shape[pos]) == 1)
             p = tuple(z3.Int(f"p{n}") for n in range(len(labels)))
             rng = z3.And(*[z3.And(p[n] >= 0, p[n] < zint(a.shape[n])) for n in range(len(labels))])
             idx = {d: p[n] for n, d in enumerate(labels)}
